@@ -173,6 +173,13 @@ func run(e *ev.Env) {
 		l2.wsAC, l3.wsAC = " ", " "
 		corpus("docs-languages", kLanguage, mo("pt", "nl", "ru"), true, l1, l2, l3)
 	}
+	// names that differ only by a prefix are different names
+	corpus("type-prefix-wildcard-range", kMedia, mo("text/html", "image/png"), true, mr("textual/*", ""), mr("image/png", "0.1"))
+	corpus("type-prefix-offer", kMedia, mo("textual/html", "image/png"), true, mr("text/*", ""), mr("image/png", "0.1"))
+	corpus("subtype-prefix", kMedia, mo("text/htmlx", "text/htm", "image/png"), true, mr("text/html", ""), mr("image/png", "0.1"))
+	corpus("token-prefix-encoding", kEncoding, mo("gzip", "br"), true, mr("gzipx", ""), mr("br", "0.1"))
+	corpus("token-prefix-charset", kCharset, mo("ut", "iso-8859-1"), true, mr("utf-8", ""), mr("iso-8859-1", "0.1"))
+	corpus("token-prefix-language", kLanguage, mo("en", "fr"), true, mr("eng", ""), mr("fr", "0.1"))
 	corpus("absent-header", kMedia, mo("application/json", "text/html"), false, mr("text/html", ""))
 	// equal quality, specificity and parameter count: position decides; three-way for the sort
 	corpus("tie-position", kMedia, mo("image/png", "text/css", "text/html"), true,
